@@ -86,6 +86,7 @@ func traceRelaxPatchVulns(cl resolve.Client, vm localMatcher, m0 guidedremediati
 	vulnIDs []string, ro *options.RemediationOptions) (iters [][]xPatchRec, outcome string, lastResolved bool, out *guidedremediation.VerifC11Resolved) {
 	tm, tr := guidedremediation.VerifC11TraceManifest(m0)
 	tr.MaxPatches = patchBudget
+	tr.MaxResolves = resolveBudget
 	rs := &guidedremediation.VerifC11Resolved{Manifest: tm, ResolvedGraph: res0.ResolvedGraph}
 	var err error
 	oc, _ := guarded(callLimit, func() {
